@@ -40,6 +40,14 @@ def _set(G, f, a):
     G.fields[f].arr = a
 
 
+def observe(E, label, goal):
+    """an obligation about the callback call being made; the fact is NOT added to the path condition (fewer hypotheses: sound; keeps
+    the later invariant obligations as they were)"""
+    mark = len(E.pc)
+    E.prove(label, goal, "callback")
+    del E.pc[mark:]
+
+
 def make_setup(enter_given, leave_given):
     def f(S):
         n = S.int("n")
@@ -80,8 +88,16 @@ def make_setup(enter_given, leave_given):
         G.fields["clk"] = Sym(z3.IntVal(0), "int")
         G.py = dict(mark=0)
 
+        # Every callback call is checked, AT THE CALL, to be one of the events the property allows (this is `Step` of
+        # lean/TraverseRule.lean, clause by clause; what the callbacks saw so far is in the observation arrays ecnt/ev/lcnt/lv):
         def enter_model(E, args, kwargs):
             xz, prez = to_z3(args[0], "int"), to_z3(args[1], "oref")
+            par = z3.Select(P, xz)
+            seen, left = (lambda t: z3.Select(_arr(G, "ecnt"), t)), (lambda t: z3.Select(_arr(G, "lcnt"), t))
+            observe(E, "_traverse_dfs/enter/called-for-a-node-of-the-subtree-not-entered-before", z3.And(rng(xz), Sub(xz), seen(xz) == 0))
+            open_parent = [par >= 0, seen(par) == 1, prez == z3.Select(_arr(G, "ev"), par)] + ([left(par) == 0] if leave_given else [])
+            observe(E, "_traverse_dfs/enter/start-node-gets-None-any-other-node-the-value-its-parents-call-returned-and-the-parent-is-not-left-yet",
+                    z3.If(xz == root.z, prez == 0, z3.And(*open_parent)))
             v = fresh("oref", "entv")
             _set(G, "ecnt", z3.Store(_arr(G, "ecnt"), xz, z3.Select(_arr(G, "ecnt"), xz) + 1))
             _set(G, "epre", z3.Store(_arr(G, "epre"), xz, prez))
@@ -102,6 +118,13 @@ def make_setup(enter_given, leave_given):
                 ln = z3.IntVal(len(ch.items))
             else:
                 arr, ln = ch.cols[0], zint(ch.n)
+            seen, left = (lambda t: z3.Select(_arr(G, "ecnt"), t)), (lambda t: z3.Select(_arr(G, "lcnt"), t))
+            c_, j_ = z3.Int(fresh_name("c")), z3.Int(fresh_name("j"))
+            observe(E, "_traverse_dfs/leave/called-for-an-entered-node-not-left-before-all-of-whose-children-are-left",
+                    z3.And(rng(xz), Sub(xz), left(xz) == 0, *([seen(xz) == 1] if enter_given else []),
+                           z3.ForAll([c_], z3.Implies(z3.And(rng(c_), z3.Select(P, c_) == xz), left(c_) == 1))))
+            observe(E, "_traverse_dfs/leave/receives-exactly-the-values-its-childrens-calls-returned-in-table-order",
+                    z3.And(ln == nch(xz, n.z), z3.ForAll([j_], z3.Implies(z3.And(0 <= j_, j_ < ln), z3.Select(arr, j_) == z3.Select(_arr(G, "lv"), rrow(xz, j_))))))
             la = G.fields["largs"]
             la.val, la.lens = z3.Store(la.val, xz, arr), z3.Store(la.lens, xz, ln)
             v = fresh("oref", "lefv")
@@ -201,7 +224,7 @@ def inv1(which):
     def f(E, v, o):
         s = S1(v)
         P, n, root = s["P"], s["n"], s["root"]
-        x, p, c, j = (z3.Int(fresh_name(t)) for t in "xpcj")
+        x, p, c, j = (z3.Int(f"{t}_{which}") for t in "xpcj")  # fixed bound names: the same clause over the same state is the same term
         R = lambda t: z3.And(t >= 0, t < n)
         gE, gL, tE, tL, posE, posL = s["gE"], s["gL"], s["tE"], s["tL"], s["posE"], s["posL"]
         ENT, LEFT = (lambda t: sel(gE, t) == 1), (lambda t: sel(gL, t) == 1)
@@ -403,6 +426,50 @@ def exit_hint(E, v):
     E.assumptions.add("assumed-lemma:tree_induction (P(root) and (P(parent x) -> P(x)) for subtree nodes => P on the subtree; depth witness) instantiated for P = entered")
 
 
+def _symbols(t, cache={}):
+    """names of the uninterpreted symbols of a formula"""
+    key = t.get_id()
+    if key in cache and cache[key][0].eq(t):
+        return cache[key][1]
+    out, todo, seen = set(), [t], set()
+    while todo:
+        a = todo.pop()
+        if a.get_id() in seen:
+            continue
+        seen.add(a.get_id())
+        if z3.is_quantifier(a):
+            todo.append(a.body())
+            for k in range(a.num_patterns()):
+                todo.extend(a.pattern(k).children())
+        elif z3.is_app(a):
+            if a.decl().kind() == z3.Z3_OP_UNINTERPRETED:
+                out.add(a.decl().name())
+            todo.extend(a.children())
+    cache[key] = (t, out)
+    return out
+
+
+def leave_branch_step(nm):
+    """Proof step for the leave branch of the stack loop: popping a leave frame keeps invariant `nm`.  It is proved from the part of
+    the path condition that does not speak about child counting (nch / rrow: the children-map facts and their ghost definitions),
+    which this step does not need - a SUBSET of the hypotheses (sound), so that the solver's answer does not depend on its seed.
+    The clause obligation that follows finds the very same term among its hypotheses."""
+    def h(E, v):
+        if "is_enter" not in v or "stack" not in v:
+            return
+        if E.feasible(to_z3(v["is_enter"], "bool")):
+            return  # the enter branch needs the children map: proved from the whole path condition as before
+        from pyvc.engine import Oblig
+
+        goal = inv1(nm)(E, v, None)
+        hyps = [f for f in E.pc if not ({"nch", "rrow"} & _symbols(f))]
+        note = "annotation [context without nch / rrow]" + (f" [variant {E.variant}]" if getattr(E, "variant", "") else "")
+        E.obligs.append(Oblig(f"{E.prop}/_traverse_dfs/step/popping-a-leave-frame-keeps/{nm}", hyps, goal, "annotation", note))
+        E.pc.append(goal)
+
+    return h
+
+
 # --------------------------------------------------------------------------- proof annotations (each is its own obligation)
 def ann_top_frame(E, v, o):
     """the frame just popped, read off the invariants at its position (= the new stack length)"""
@@ -440,6 +507,8 @@ def register(R: Registry):
                   "enter-after-parent-with-the-parents-value", "leave-after-all-children-with-exactly-their-values", "returns-the-start-nodes-value",
                   "every-subtree-node-entered-and-left-structurally"]
     hints = {("post/" + posts_both[-1]): exit_hint}
+    for nm in ("pending-leave-frame", "children-of-entered"):
+        hints["loop1/preserved/" + nm] = leave_branch_step(nm)
     R.add(
         f"{BASE}:_traverse_dfs",
         prop="C04",
